@@ -328,6 +328,26 @@ def gen_nested_generic_case(rng, k):
     return c
 
 
+def pinned_struct_cases(k0):
+    """regression cases present in EVERY run whatever the seed: a bare Pointer placeholder naming a field delegates
+    (caller flags reach the field itself) under Debug and Display, struct-level attribute, named and tuple"""
+    out = []
+
+    def mk(derive, decl, value, letter_outer, inner):
+        c = Case(k0 + len(out))
+        c.decl, c.value = decl, value
+        c.obs = [("plain", "format!(\"{%s}\", __v)" % (":" + letter_outer if letter_outer else ""), "format!(\"{:p}\", %s)" % inner)]
+        for sp in [">20", "020", "#", "*^24"]:
+            c.obs.append(("flags-pass:" + sp, "format!(\"{:%s%s}\", __v)" % (sp, letter_outer), "format!(\"{:%sp}\", %s)" % (sp, inner)))
+        c.meta = {"pinned": True, "transparent": True, "attr": True}
+        out.append((c, derive))
+    mk("Debug", '#[derive(derive_more::Debug)] #[debug("{a:p}")] pub struct Pn { a: &\'static i32 }', "Pn { a: &42 }", "?", "__v.a")
+    mk("Debug", '#[derive(derive_more::Debug)] #[debug("{_0:p}")] pub struct Pt(&\'static i32);', "Pt(&42)", "?", "__v.0")
+    mk("Display", '#[derive(derive_more::Display)] #[display("{a:p}")] pub struct Pd { a: &\'static str }', 'Pd { a: "x" }', "", "__v.a")
+    mk("Display", '#[derive(derive_more::Display)] #[display("{_0:p}")] pub struct Pe(&\'static i32, u8);', "Pe(&42, 1)", "", "__v.0")
+    return out
+
+
 def gen_enum_case(rng, k, derive_trait, with_flags=False):
     """C07: enum-level (shared) format vs the documented meaning.  with_flags (C05): caller's flags on every variant"""
     c = Case(k)
